@@ -7,7 +7,7 @@ CHECKS = {
  "C13": dict(
    technique="bounded model checking of the real code: Kani 0.68 -> CBMC 6.11 (CaDiCaL) over #[kani::proof] harnesses with symbolic bytes/numbers/op sequences",
    category="model_checking",
-   text="SAT-decided for every input inside the bounds: every 3-byte string and every sequence of 4 read/write operations at every alignment; every natural in [1,2^16) (quick) / [1,2^32) plus must-reject [2^32,2^34) (thorough) through encoder and decoder with u32/usize/u16 result types and symbolic bounds; every byte string of up to 6 bytes for decoder canonicity; unwinding assertions on. Bounded, not a proof.",
+   text="SAT-decided for every input inside the bounds: every 3-byte string and every sequence of 4 read/write operations at every alignment; naturals through encoder and decoder: quick [1,2^12) with u32 result and symbolic bound, [1,2^17) with u16 result, [1,2^16) with usize result; thorough [1,2^32) plus must-reject [2^32,2^34); decoder canonicity on arbitrary byte strings split by unary-prefix depth k: quick k<=2 (3 bytes), thorough k<=6 (up to 7 bytes); unwinding assertions on. Bounded, not a proof.",
    design_ref="DESIGN.md §2 C13",
    note="trusted: Kani/CBMC/CaDiCaL, Kani's dev-profile model on its pinned nightly, infallible io sink; outside: longer strings / op sequences, write failure"),
  "C19": dict(
